@@ -222,6 +222,11 @@ func (tfs *tagFamilyFilters) Eq(tagName string, tagValue string) bool {
 				// No filter available, conservatively return true (don't skip)
 				return true
 			}
+			if df, isDict := tf.filter.(*filter.DictionaryFilter); isDict {
+				// The dictionary of an array tag holds whole serialized arrays, which
+				// MightContain never matches; ask whether any stored array has the element.
+				return df.ContainsAll([][]byte{[]byte(tagValue)})
+			}
 			return tf.filter.MightContain([]byte(tagValue))
 		}
 	}
@@ -231,6 +236,11 @@ func (tfs *tagFamilyFilters) Eq(tagName string, tagValue string) bool {
 func (tfs *tagFamilyFilters) Range(tagName string, rangeOpts index.RangeOpts) (bool, error) {
 	for _, tff := range tfs.tagFamilyFilters {
 		if tf, ok := (*tff)[tagName]; ok {
+			if len(tf.min) == 0 || len(tf.max) == 0 {
+				// No min/max was recorded for this block (for example a merged part):
+				// nothing can be concluded, so the block must not be skipped.
+				continue
+			}
 			if rangeOpts.Lower != nil {
 				lower, ok := rangeOpts.Lower.(*index.FloatTermValue)
 				if !ok {
